@@ -500,14 +500,17 @@ def _handle_fn_body(body: list[ast.stmt], ctx: Context) -> sympy.Expr | None:
                 # `from m import a as b` binds a under the name b
                 name = alias.asname or alias.name
                 el = contents[alias.name]
-                if isinstance(el, float):
+                if isinstance(el, (int, float)) and not isinstance(el, bool):
                     ctx.symbols[name] = sympy.Float(el)
                 elif callable(el):
                     ctx.fns[name] = el
                 elif isinstance(el, ModuleType):
                     ctx.modules[name] = el
                 else:
-                    _LOGGER.debug("Skipping import %s", node)
+                    # the name is local now: it must not be looked up among the
+                    # constants of the parent module
+                    msg = f"Cannot translate the imported object {alias.name}"
+                    raise NotImplementedError(msg)
         elif isinstance(node, (ast.Expr, ast.Pass)):
             # docstrings and bare expressions don't change any value
             _LOGGER.debug("Skipping node of type %s", type(node))
